@@ -199,6 +199,8 @@ func init() {
 			{Name: "corrupt", QShards: 2, TShards: 8, Run: c02Corrupt},
 			{Name: "sizes", TShards: 6, Run: c02Sizes},
 			{Name: "prefixes", Run: prefixUnit("fastq", false, 0)},
+			{Name: "edges", Run: edgeUnit("fastq")},
+			{Name: "fieldlens", TShards: 2, Run: lengthUnit("fastq")},
 		},
 	})
 }
